@@ -143,6 +143,33 @@ def mixedchain():
     return res
 
 
+def signals_order():
+    """SplineMethod with two B-spline signals declared in the order (parameter, variable): a degree-1 B-spline interpolates
+    its coefficients at the breakpoints, so the control-grid samples of the parameter are the values it was given."""
+    res = []
+    for N in (2, 3, 4):
+        ocp = Ocp(t0=0.0, T=2.0)
+        x = ocp.state(); v = ocp.state(); u = ocp.control()
+        ocp.set_der(x, v); ocp.set_der(v, u)
+        pb = ocp.parameter(grid='bspline', order=1)           # declared before the variable
+        vb = ocp.variable(grid='bspline', order=2)
+        vals = [0.5 + 1.25 * k * k for k in range(N + 1)]
+        ocp.set_value(pb, ca.DM(vals).T)
+        ocp.add_objective(ocp.at_tf(x) ** 2 + ocp.sum(u ** 2 + vb ** 2))
+        ocp.subject_to(ocp.at_t0(x) == 0)
+        ocp.subject_to(vb + pb <= 100)
+        ocp.solver('ipopt'); ocp.method(SplineMethod(N=N))
+        try:
+            quiet(lambda: ocp._transcribed)
+            opti = ocp._method.opti
+            got = np.array(opti.debug.value(quiet(ocp.sample, pb, grid='control')[1], opti.initial())).reshape(-1)
+            ok = len(got) == N + 1 and all(abs(a - b) < 1e-9 for a, b in zip(got, vals))
+            res.append(('C17.c:signal_order', 'ok' if ok else 'mismatch', 'N=%d: samples of the B-spline parameter %s, values given %s' % (N, np.round(got, 6).tolist(), vals)))
+        except Exception as e:
+            res.append(('C17.c:signal_order', 'error', '%s: %s' % (type(e).__name__, (str(e).splitlines() or [''])[-1][:160])))
+    return res
+
+
 def infcons(rec):
     """grid='inf' constraints under SplineMethod: rows = bounds on the B-spline coefficients of the constrained member."""
     sc = rec['sc']; L = sc['L']; N = sc['N']
